@@ -90,7 +90,23 @@ type Evidence struct {
 }
 
 // RunProperty runs all rules serving prop, writes evidence and reports, prints verdict lines, returns exit code.
+// PreRun hooks are run once per loaded program before any rule (program-wide tables the rules' helpers consult).
+var PreRun []func(*Program)
+var preRunDone = map[*Program]bool{}
+
+// RunPreHooks runs the PreRun hooks for prog if they have not run yet.
+func RunPreHooks(prog *Program) {
+	if preRunDone[prog] {
+		return
+	}
+	preRunDone[prog] = true
+	for _, h := range PreRun {
+		h(prog)
+	}
+}
+
 func RunProperty(prog *Program, prop, tier string, seed int, verifDir string, start time.Time, verbose bool) int {
+	RunPreHooks(prog)
 	ctx := &Ctx{Program: prog, Tier: tier, Prop: prop}
 	var rules []*Rule
 	for _, r := range Registry {
